@@ -230,8 +230,20 @@ def stopstep : P String := do
   let tr := Coupling.solveTrace (v = 1) stopAt Coupling.pinit fuels
   pure (" ".intercalate ([toString s.n, toString s.upd.length] ++ s.upd.map toString ++ [toString tr.length] ++ tr.map toString))
 
+/-- c18.zener variant P [Ravg volFrac m K]ᴾ gmax alpha M gbe → drag z of the host row (phases in host order), the specification
+(sum over the phases with precipitates), frozen flag of the boundary with the largest unconstrained rate `gmax`;
+variant 0 = computeZenerRadius as it is (a phase without precipitates is skipped), 1 = early exit, 2 = break -/
+def zener : P String := do
+  let v ← nat; let np ← nat
+  let phs ← rep (do let r ← flt; let f ← flt; let m ← flt; let k ← flt; pure ({ ravg := r, volFrac := f, m := m, K := k } : ZPhase Float)) np
+  let gmax ← flt; let al ← flt; let M ← flt; let gbe ← flt
+  let z := if v = 0 then zenerDrag Float.pow phs else if v = 1 then zenerDragEarlyExit Float.pow phs 0.0 else zenerDragBreak Float.pow phs 0.0
+  let frozen := constrained al M gbe z gmax == 0.0 && constrained al M gbe z (-gmax) == 0.0
+  pure s!"{fout z} {fout (zenerSpec Float.pow phs)} {bstr frozen}"
+
 def handle (verb : String) : Option (P String) :=
   match verb with
+  | "c18.zener" => some zener
   | "c18.precrow" => some precrow
   | "c18.stopstep" => some stopstep
   | "c18.hcouple" => some hcouple
